@@ -1,6 +1,7 @@
 package tree
 
 import (
+	"regexp"
 	"strconv"
 	"strings"
 
@@ -135,7 +136,8 @@ func valueFromCommandText(commandText string) *variable.Value {
 		return variable.NewBoolean(false)
 	}
 
-	if commandText[0] == '+' { // see Antlr grammar, numbers don't start with + even though Go would be happy to parse them
+	// see Antlr grammar: numbers are plain decimal literals, even though Go would be happy to parse eg. +1, 1e3, 0x10, inf or nan
+	if !decimalLiteral.MatchString(commandText) {
 		return variable.NewString(commandText)
 	}
 	numberValue, err := strconv.ParseFloat(commandText, 64)
@@ -144,6 +146,8 @@ func valueFromCommandText(commandText string) *variable.Value {
 	}
 	return variable.NewString(commandText)
 }
+
+var decimalLiteral = regexp.MustCompile(`^-?[0-9]+(\.[0-9]+)?$`)
 
 type CallStatement struct {
 	*FunctionCall
